@@ -302,6 +302,44 @@ def run(ctx):
                     ctx.violation(f"C15:{cname}:quantity-value-changed", f"after {text!r} was decoded (by {how}) before the unit with that symbol was declared: "
                                   f"{cname} round trip of {q!r} returned {y!r}", {"text": text, "earlier": how})
 
+    # ---- parse something prefixed -> declare a prefix of one's own (anonymous first or not) -> round trip ----------
+    # a user's prefix is a registered prefix like any other: quantities written with it go through the text codecs
+    for k in range(4 if ctx.tier == "quick" else 40):
+        try:
+            Q(2, rng.choice(["km", "ms", "MiB", "kg/s"]))   # the parser has resolved prefixed symbols before
+        except Exception:
+            pass
+        e = 41 + k + 50 * ctx.shard
+        how = rng.choice(["anonymous-first-by-arithmetic", "anonymous-first-by-constructor", "fresh"])
+        if how == "anonymous-first-by-arithmetic":
+            (2 * (Prefix(10, e - 1) * m.Unit._by_name["meter"])) * Q(3, Prefix(10, 1) * m.One)
+            Prefix(10, e - 1) * Prefix(10, 1)
+        elif how == "anonymous-first-by-constructor":
+            Prefix(10, e)
+        psym = "Zq" + abc[ctx.shard % 26] + abc[k % 26]
+        try:
+            mine = Prefix(10, e, name=f"zqc15prefix{ctx.shard}k{k}", symbol=psym)
+        except Exception as ex:
+            ctx.count(f"histories/own-prefix/declaration-raised/{type(ex).__name__}")
+            continue
+        for uname in ("meter", "second", "gram"):
+            unit = mine * m.Unit._by_name[uname]
+            for mag in (3, 2.5, Decimal("1.25")):
+                q = Q(mag, unit)
+                outs = {c: codecs[c] for c in qcodecs}
+                outs["composite"] = lambda x: Q(*x.__composite_values__())
+                for cname, f in outs.items():
+                    ctx.count("evaluations")
+                    ctx.count("histories/own-prefix-roundtrip")
+                    ctx.distinct(("own-prefix-roundtrip", how, cname, uname, type(mag).__name__))
+                    try:
+                        y = f(q)
+                    except Exception as ex:
+                        ctx.violation(f"C15:{cname}:raised-{type(ex).__name__}:quantity", f"{cname} round trip of {q!r} (prefix {psym!r} declared at run time, {how}) raised {ex}", {"prefix": psym, "how": how})
+                        continue
+                    if not (isinstance(y, Q) and y.unit is unit and y == q and type(y.magnitude) is type(mag)):
+                        ctx.violation(f"C15:{cname}:quantity-value-changed", f"{cname} round trip of {q!r} (prefix {psym!r} declared at run time, {how}) returned {y!r}", {"prefix": psym, "how": how})
+
     # ---- cross-process: load in a fresh interpreter ------------------------------------------------------
     if ctx.shard == 0:
         items = []
@@ -377,3 +415,4 @@ def run(ctx):
     ctx.require("evaluations", 500)
     ctx.require("histories/dump-name-load/unit", 4)
     ctx.require("histories/decode-declare-roundtrip", 10)
+    ctx.require("histories/own-prefix-roundtrip", 10)
